@@ -39,7 +39,9 @@ pub enum WNorm {
     Opt(Box<WNorm>),
     Result(Box<WNorm>, Box<WNorm>),
     Product(Vec<WNorm>),
-    Enum(usize, Vec<(String, Vec<WNorm>)>),
+    /// discriminant width, then per variant present at the version: (name, wire discriminant =
+    /// position in the declaration, fields)
+    Enum(usize, Vec<(String, usize, Vec<WNorm>)>),
     Opaque(&'static str),
     Recursive,
 }
@@ -113,8 +115,9 @@ impl Universe {
                         d.discr_width(),
                         variants
                             .iter()
-                            .filter(|x| v >= x.vfrom && x.vto.map_or(true, |t| v <= t))
-                            .map(|x| (x.name.clone(), flat(fs(&x.fields))))
+                            .enumerate()
+                            .filter(|(_, x)| v >= x.vfrom && x.vto.map_or(true, |t| v <= t))
+                            .map(|(k, x)| (x.name.clone(), k, flat(fs(&x.fields))))
                             .collect(),
                     ),
                 }
@@ -152,7 +155,7 @@ fn field_mut(d: &mut Def, pos: (usize, usize)) -> &mut Field {
 /// Apply one wire-altering edit to a copy of def `di`; returns the label or None if not applicable.
 fn mutate(g: &mut Gen, d: &mut Def) -> Option<String> {
     let pos = plain_field_positions(d);
-    let kinds = 9;
+    let kinds = 10;
     for _ in 0..12 {
         match g.rng.below(kinds) {
             0 => {
@@ -250,7 +253,7 @@ fn mutate(g: &mut Gen, d: &mut Def) -> Option<String> {
                     let new = match d.repr {
                         Repr::Int(p) if p.wire_size() == 1 => Repr::Int(Prim::U16),
                         Repr::Int(_) => Repr::Int(Prim::U8),
-                        Repr::Rust | Repr::C => Repr::Int(Prim::U32),
+                        Repr::Rust | Repr::C | Repr::CAlign(_) | Repr::Align(_) => Repr::Int(Prim::U32),
                         Repr::CInt(p) if p.wire_size() == 1 => Repr::CInt(Prim::U16),
                         Repr::CInt(_) => Repr::CInt(Prim::U8),
                         Repr::Transparent => continue,
@@ -278,6 +281,20 @@ fn mutate(g: &mut Gen, d: &mut Def) -> Option<String> {
                     let i = g.rng.below(variants.len() - 1);
                     variants.swap(i, i + 1);
                     return Some("variants_reordered".into());
+                }
+            }
+            8 => {
+                // a variant added in a later version, declared *before* older variants: at earlier
+                // versions the names agree but the wire discriminants (declaration index) do not
+                let ver = g.uni.version;
+                if let DefKind::Enum { variants } = &mut d.kind {
+                    if ver < 1 || variants.is_empty() || variants.len() > 200 || variants.iter().any(|v| v.discr.is_some()) {
+                        continue;
+                    }
+                    let at = g.rng.below(variants.len());
+                    let from = g.rng.range(1, ver as usize) as u32;
+                    variants.insert(at, VariantDef { name: "VIns".into(), shape: Shape::Unit, fields: vec![], discr: None, vfrom: from, vto: None });
+                    return Some("variant_inserted_versioned".into());
                 }
             }
             _ => {
